@@ -367,8 +367,48 @@ def replay(native, v):
             lines.append('-TXTPP#run exit 1')
         for j in deps.get(i, []):
             lines.append('-TXTPP#include F%d' % j)
+        if plan.get(('late', i)):
+            lines.append('#TXTPP#run sleep %.1f' % plan[('late', i)])   # after the dependencies: delays the final pass only
         lines.append('#TXTPP#run echo r >> count_F%d' % i)       # runs in the final pass only: exactly once per build
         return '\n'.join(lines) + '\n'
+
+    def plan_from_trace(step=0.5):
+        """sleeps that make first-pass results and final results arrive in the order of the model trace:
+        s1 (top of file) delays both passes, s2 (after the dependency lines) delays the final pass only"""
+        t = 0.0
+        spawn1, spawn2, s1, s2 = {}, {}, {}, {}
+        req = set()
+        for inp in inputs:
+            nm = inp.split('/')[-1]
+            if nm in ('.', ''):
+                req |= set(range(n))
+            elif nm.startswith('F'):
+                req.add(int(nm[1:].split('.')[0]))
+        for i in req:
+            spawn1[i] = 0.0
+        had_deps = set()
+        for e in d.get('events', []):
+            if e[0] == 'hasdeps':
+                i = e[1]
+                t += step
+                s1[i] = max(0.0, t - spawn1.get(i, 0.0))
+                had_deps.add(i)
+                for j in e[2]:
+                    spawn1.setdefault(j, t)
+                spawn2[i] = t               # released at the earliest now; refined when its last dependency completes
+            elif e[0] == 'final':
+                i = e[1]
+                t += step
+                if i in had_deps:
+                    s2[i] = max(0.0, t - spawn2.get(i, t) - s1.get(i, 0.0))
+                else:
+                    s1[i] = max(0.0, t - spawn1.get(i, 0.0))
+                for k in list(spawn2):
+                    if i in deps.get(k, []):
+                        spawn2[k] = max(spawn2[k], t)
+        plan = {i: round(v, 1) for i, v in s1.items() if v > 0}
+        plan.update({('late', i): round(v, 1) for i, v in s2.items() if v > 0})
+        return plan
 
     class _E:
         def __init__(self, seen):
@@ -398,7 +438,7 @@ def replay(native, v):
         r = specpp.process(ConcreteCtx(), tuple(content(i, {}).encode()), _E(seen + (i,)), True)
         return bytes(r.output).decode() if r.ok else None
     bad = False
-    plans = [{}, {i: 0.4 * k for k, i in enumerate(order)}, {i: 0.4 * (len(order) - k) for k, i in enumerate(order)},
+    plans = [plan_from_trace(), {}, {i: 0.4 * k for k, i in enumerate(order)}, {i: 0.4 * (len(order) - k) for k, i in enumerate(order)},
              {i: (0.0 if i in finals[:1] else 0.6) for i in range(n)}]
     for plan in plans:
         for threads in (4, 1):
